@@ -12,10 +12,12 @@ Mirrors, function by function (names kept):
   `validateSmartContractSigners`, `ValidateSignersWithoutParties`,
   `validateAllRequiredSigned`, `validateRolesPresent`, `validatePartiesArePresent`
                                                      x/metadata/keeper/signers.go:15-607
-* the callers' case split (rollup on/off, new/existing, record moving between sessions):
+* the callers' case split (rollup on/off, new/existing, record moving between sessions, value
+  owner changing alone / with other fields / not at all):
   `ValidateWriteScope`/`ValidateDeleteScope`/`ValidateAddScopeDataAccess`/
-  `ValidateUpdateScopeOwners` (scope.go:424-795), `ValidateWriteSession` (session.go:105),
-  `ValidateWriteRecord`/`ValidateDeleteRecord` (record.go:118,309).
+  `ValidateUpdateScopeOwners` (scope.go:436-815), `ValidateWriteSession` (session.go:105),
+  `ValidateWriteRecord`/`ValidateDeleteRecord` (record.go:118,309),
+  `ValidateScopeValueOwnersSigners` (signers.go:427).
 
 Pointer mutation of `[]*PartyDetails` becomes a returned list.  External state is the
 parameter `Env`:
@@ -89,6 +91,8 @@ inductive Err where
   | partiesAbsent (who : List (Addr × Role))
   /-- "parties can only be optional when require_party_rollup = true" (scope.go:463) -/
   | optionalNotAllowed
+  /-- "missing signature from existing value owner" (`ValidateScopeValueOwnersSigners`, signers.go:501) -/
+  | valueOwner
   deriving DecidableEq, Repr
 
 /-! ### small list helper: the Go idiom "for … { if cond { mutate; continue outer } }" -/
@@ -373,10 +377,15 @@ def validateOptionalParties (optAllowed : Bool) (parties : List Party) : Option 
 
 The stateless checks that precede it (`ValidateBasic`: non-empty unique parties with valid
 addresses and roles; ids; spec lookups) are preconditions here: the harness only builds
-messages and stored entries that pass them.  Scopes here have no value owner, so
-`ValidateScopeValueOwnersSigners` contributes no requirement and no used signer (it only
-decodes the signers, failing on an undecodable one exactly when
-`validateSmartContractSigners` would). -/
+messages and stored entries that pass them.  `validateWriteScope` / `validateDeleteScope` are
+the endpoints for scopes WITHOUT value owner (then `ValidateScopeValueOwnersSigners`
+contributes no requirement and no used signer: it only decodes the signers, failing on an
+undecodable one exactly when `validateSmartContractSigners` would); `validateWriteScopeVO` /
+`validateDeleteScopeVO` below are the two endpoints in full, value owner included, and reduce to
+them when there is none (`PvProofs.C10.writeScopeVO_without_value_owner`).  The other endpoints
+never look at the value owner.  The stored entries need not have the shape the CURRENT rollup
+flag of the scope allows: a session keeps its `optional` parties when the scope is rewritten
+with rollup off, and keeps parties that are no scope owners when it is turned on. -/
 
 /-- The part of a scope the signer rules read; `other` stands for every remaining field
 (`existing.Equals(proposed)` compares all of them). -/
@@ -463,6 +472,110 @@ def validateDeleteScope (env : Env) (scope : Scope) (specRoles : Option (List Ro
         (validateAllRequiredSigned env msgType (getRequiredPartyAddresses scope.owners) signers)
     | some roles => thenSmartContract env msgType signers
         (validateAllRequiredPartiesSigned env msgType scope.owners scope.owners roles signers)
+
+/-! ### scopes WITH a value owner (`ValidateWriteScope` / `ValidateDeleteScope` in full)
+
+The value owner of a stored scope lives in the bank module (the holder of the scope's coin);
+`storedVO` is that holder (`""`: none; a decoded address otherwise), `proposedVO` the
+`value_owner_address` field of the message's scope (`""`: "no desired change").  Value owners
+here are never marker accounts (the marker permissions are property C09). -/
+
+/-- The signer decoding at the top of `ValidateScopeValueOwnersSigners` (signers.go:444-467):
+the signers that count for the value owner — only the first one when it is a smart contract.
+`none`: a signer string that had to be decoded does not decode. -/
+def valueOwnerSignerAccs (env : Env) : List Addr → Option (List Addr)
+  | [] => some []
+  | s0 :: rest =>
+    if !env.valid s0 then none
+    else if env.wasm s0 then some [s0]
+    else if rest.all env.valid then some (s0 :: rest) else none
+
+/-- `ValidateScopeValueOwnersSigners` (signers.go:427) for the at most one existing value owner
+the scope endpoints pass (`existing = ""`: none), not a marker; on success the used signers. -/
+def validateScopeValueOwnersSigners (env : Env) (msgType : MsgType) (existing proposed : Addr)
+    (signers : List Addr) : Except Err (List Addr) :=
+  if existing != "" && existing == proposed then .ok []                       -- :435
+  else match valueOwnerSignerAccs env signers with
+    | none => .error .invalidSigner                                           -- :449, :464
+    | some signerAccs =>
+      if existing == "" then .ok []                                           -- no existing owner
+      else if signerAccs.contains existing then .ok [existing]                -- :483
+      else match findAuthzGrantee env msgType existing signerAccs with        -- :496
+        | some grantee => .ok [grantee]
+        | none => .error .valueOwner                                          -- :501
+
+/-- tail shared by `ValidateWriteScope` / `ValidateDeleteScope` (scope.go:530-539, :596-607):
+the value-owner signers, then `validateSmartContractSigners` with the used signers of both. -/
+def thenValueOwner (env : Env) (msgType : MsgType) (existingVO proposedVO : Addr) (signers : List Addr)
+    (r : Except Err (List PartyDetails)) : Except Err Unit :=
+  match r with
+  | .error e => .error e
+  | .ok parties =>
+    match validateScopeValueOwnersSigners env msgType existingVO proposedVO signers with
+    | .error e => .error e
+    | .ok used =>
+      match validateSmartContractSigners env msgType (used ++ getUsedSigners parties) signers with
+      | some e => .error e
+      | none => .ok ()
+
+/-- The owner / role part of `ValidateWriteScope` (scope.go:461-528): `exVO` is the stored
+value owner as far as it was looked up.  "The ONLY change is from one value owner to another"
+(:461-470, `existing.Equals(proposedCopy)`: every other field — specification, owners, data
+access AND `require_party_rollup` — is the same) skips every owner / role check; otherwise the
+rules of `validateWriteScope`, where "nothing changes" (`existing.Equals(proposed)`, :495) also
+compares the value owner. -/
+def writeScopeOwnerChecks (env : Env) (existing : Option Scope) (exVO : Addr) (proposed : Scope)
+    (proposedVO : Addr) (specRoles : List Role) (existingSpecRoles : Option (List Role))
+    (signers : List Addr) : Except Err (List PartyDetails) :=
+  let msgType := "WriteScope"
+  let onlyChangeIsValueOwner :=
+    match existing with
+    | some ex => exVO != "" && exVO != proposedVO && ex.equals proposed
+    | none => false
+  if onlyChangeIsValueOwner then .ok []
+  else match validateRolesPresent proposed.owners specRoles with
+    | some e => .error e
+    | none =>
+      match validateProvenanceRole env (buildPartyDetails [] proposed.owners) with
+      | some e => .error e
+      | none =>
+        match existing with
+        | none => .ok []
+        | some ex =>
+          if !ex.rollup then
+            if !(ex.equals proposed && exVO == proposedVO) then
+              validateAllRequiredSigned env msgType (getPartyAddresses ex.owners) signers
+            else .ok []
+          else
+            validateAllRequiredPartiesSigned env msgType ex.owners ex.owners
+              (existingSpecRoles.getD specRoles) signers
+
+/-- the value owner `ValidateWriteScope` compares (scope.go:447-459): the stored one is looked
+up only when the scope exists and the message names a value owner -/
+def lookedUpVO (existing : Option Scope) (storedVO proposedVO : Addr) : Addr :=
+  if existing.isSome && proposedVO != "" then storedVO else ""
+
+/-- `ValidateWriteScope` (scope.go:436) in full: the owner / role checks, then the value owner
+and the smart-contract rule. -/
+def validateWriteScopeVO (env : Env) (existing : Option Scope) (storedVO : Addr) (proposed : Scope)
+    (proposedVO : Addr) (specRoles : List Role) (existingSpecRoles : Option (List Role))
+    (signers : List Addr) : Except Err Unit :=
+  let exVO := lookedUpVO existing storedVO proposedVO
+  thenValueOwner env "WriteScope" exVO proposedVO signers
+    (writeScopeOwnerChecks env existing exVO proposed proposedVO specRoles existingSpecRoles signers)
+
+/-- `ValidateDeleteScope` (scope.go:545) in full: the owners' signatures as in
+`validateDeleteScope`, then the stored value owner (:585-599, proposed value owner `""`). -/
+def validateDeleteScopeVO (env : Env) (scope : Scope) (storedVO : Addr) (specRoles : Option (List Role))
+    (signers : List Addr) : Except Err Unit :=
+  let msgType := "DeleteScope"
+  let validated : Except Err (List PartyDetails) :=
+    if !scope.rollup then
+      validateAllRequiredSigned env msgType (getPartyAddresses scope.owners) signers
+    else match specRoles with
+      | none => validateAllRequiredSigned env msgType (getRequiredPartyAddresses scope.owners) signers
+      | some roles => validateAllRequiredPartiesSigned env msgType scope.owners scope.owners roles signers
+  thenValueOwner env msgType storedVO "" signers validated
 
 /-- the signer part of `ValidateAddScopeDataAccess` / `ValidateDeleteScopeDataAccess`
 (scope.go:655-685, 710-740). -/
